@@ -11,8 +11,12 @@ from .cat_arith import value_st
 from .runner import ok, fail, discard, exception_signature, HarnessError
 
 
-def build_bench(entry, cfg):
-    return Bench(entry.inw(cfg), entry.outw(cfg), lambda s, i, o: entry.build(s, i, o, cfg))
+def build_bench(entry, cfg, alias=None):
+    """alias: {j: i} - input position j is attached to the wire of input position i (one wire on two ports)"""
+    if not alias:
+        return Bench(entry.inw(cfg), entry.outw(cfg), lambda s, i, o: entry.build(s, i, o, cfg))
+    amap = {int(j): int(i) for j, i in alias.items()}
+    return Bench(entry.inw(cfg), entry.outw(cfg), lambda s, i, o: entry.build(s, [i[amap.get(k, k)] for k in range(len(i))], o, cfg))
 
 
 def outname(entry, k):
@@ -60,11 +64,12 @@ def make_run_case(cat):
         if entry is None:
             raise HarnessError('unknown block ' + str(case['block']))
         cfg = case['cfg']
-        key = (case['block'], tuple(sorted((k, str(v)) for k, v in cfg.items())))
+        alias = case.get('alias') or None
+        key = (case['block'], tuple(sorted((k, str(v)) for k, v in cfg.items())), str(sorted(alias.items())) if alias else '')
         b = cache.get(key)
         if b is None:
             try:
-                b = build_bench(entry, cfg)
+                b = build_bench(entry, cfg, alias)
             except HarnessError:
                 raise
             except Exception as e:
@@ -78,7 +83,14 @@ def make_run_case(cat):
         ins = [v & mask(w) for v, w in zip(case['in'], inw)]
         if len(ins) != len(inw):
             raise HarnessError('bad case arity')
+        if alias:
+            for j, i in alias.items():
+                if inw[int(j)] != inw[int(i)]:
+                    raise HarnessError('alias between inputs of different widths')
+                ins[int(j)] = ins[int(i)]
         status, payload = check_one(entry, cfg, b, ins, inw)
+        if alias and status == 'fail':
+            payload = (payload[0] + '|one_wire_on_two_ports', payload[1] + ' ; inputs {} share one wire'.format(sorted(alias.items())))
         if status == 'skip':
             return discard('outside_domain', [case['block']])
         if status == 'fail':
@@ -100,6 +112,28 @@ def case_strategy(cat, names=None):
         return entry.strat.flatmap(for_cfg)
 
     return st.sampled_from(names).flatmap(for_block)
+
+
+def alias_strategy(cat, names=None):
+    """the same wire attached to two input ports of equal width (x + x, {s, s, a}, mux with both data inputs tied ...)"""
+    names = sorted(n for n in (names or cat.keys()))
+
+    def for_block(name):
+        entry = cat[name]
+
+        def for_cfg(cfg):
+            try:
+                inw = entry.inw(cfg)
+            except Exception:
+                inw = []
+            pairs = [(j, i) for i in range(len(inw)) for j in range(i + 1, len(inw)) if inw[i] == inw[j]]
+            if not pairs:
+                return st.just(None)
+            return st.tuples(st.sampled_from(pairs), st.tuples(*[value_st(w) for w in inw])).map(
+                lambda t: {'block': name, 'cfg': cfg, 'in': list(t[1]), 'alias': {str(t[0][0]): t[0][1]}})
+        return entry.strat.flatmap(for_cfg)
+
+    return st.sampled_from(names).flatmap(for_block).filter(lambda c: c is not None)
 
 
 def enum_tasks(cat, W, max_in_bits, names=None, chunk=40):
